@@ -1,5 +1,19 @@
 """Claimed checks -> MANIFEST.json (bin/mkmanifest).  One entry per property that has a validated check."""
 CHECKS = {
+    'C04': dict(
+        category='proof',
+        text='The exp/nbf comparisons of __verify_claims are extracted from the path conditions as canonical linear inequalities over '
+             'terms identified by provenance (integer value of the token\'s exp/nbf member, result of time(NULL), the checker\'s leeway '
+             'field) and must equal exp - now + leeway <= 0 / nbf - now - leeway > 0, so every integer, clock value and leeway including '
+             'the boundary second is covered without sampling. Absent/wrong-type scenarios, iss/sub/aud (presence, string type, exact '
+             'compare of the values of the same RFC name), defaults, time_leeway, claim_set/claim_del and the position of the claim '
+             'checks in the policy (signed and unsigned) are enumerated as decision tables; token JSON is parsed without JSON_ALLOW_NUL '
+             'and JSON_DECODE_ANY.',
+        design_ref='DESIGN.md section 3 C04, appendix A.4',
+        note='Trusted: clang front end, engine, jansson\'s accessors. Not decided: 64-bit overflow of now +- leeway (a statement about '
+             'values); that the claims read are the token\'s own is C19\'s subject.',
+        technique='symbolic path conditions normalised to linear forms + decision tables by abstract interpretation of the AST',
+    ),
     'C01': dict(
         category='proof',
         text='Verdict gate: every path of jwt_verify_sig through the OpenSSL and GnuTLS verify routines (14 algorithms, every library '
